@@ -212,9 +212,16 @@ def mk_cell(ctx, tmpl, tag, idx=None):
     if t == "code":
         cell["execution_count"] = ctx.ec(tag)
         cell["outputs"] = [mk_output(ctx, k, tag) for k in tmpl.get("outputs", [])]
+    if tmpl.get("intkeys"):
+        md["2024"] = ctx.md(tag)
+        md["note"] = ctx.md(tag)
     if t == "markdown" and tmpl.get("att"):
-        cell["attachments"] = ({"pic.png": {"image/png": B64[0]}} if tmpl["att"] is True
-                               else {"pic.png": {"image/png": B64[1]}, "extra.png": {"image/png": B64[0]}})
+        if tmpl["att"] is True:
+            cell["attachments"] = {"pic.png": {"image/png": B64[0]}}
+        elif tmpl["att"] == "intlike":
+            cell["attachments"] = {"1": {"image/png": B64[0]}, "pic.png": {"image/png": B64[0]}}
+        else:
+            cell["attachments"] = {"pic.png": {"image/png": B64[1]}, "extra.png": {"image/png": B64[0]}}
     if ctx.with_ids:
         cell["id"] = tmpl.get("id") or (IDS[idx] if idx is not None else NEW_IDS["x"][0])
     cell["_src"] = tmpl.get("src")
@@ -241,6 +248,9 @@ TEMPLATES = {
     "codeJloo": dict(type="code", src="B", outputs=["json_loo"], md=0),
     "codeJsc": dict(type="code", src="B", outputs=["json_scalar"], md=0),
     "codeS": dict(type="code", src="S", outputs=["stream"], md=0),
+    "codeS1": dict(type="code", src="S", text="p=1\n", outputs=[], md=0),
+    "codeS2": dict(type="code", src="S", text="q=2\n", outputs=[], md=0),
+    "codeS3": dict(type="code", src="S", text="r=3\n", outputs=[], md=0),
     "codeP": dict(type="code", src="P", outputs=[], md=0),
     "codeT": dict(type="code", src="B", outputs=["stream"], md=0, tags=["a", "b"]),
     "codeL": dict(type="code", src="L", outputs=[], md=0),
@@ -251,6 +261,8 @@ TEMPLATES = {
     "codeLol": dict(type="code", src="A", outputs=[], md=0, lol=True),
     "md": dict(type="markdown", src="M", md=1, att=False),
     "mdAtt": dict(type="markdown", src="M", md=0, att=True),
+    # attachment names / metadata keys that look like integers
+    "mdAtt1": dict(type="markdown", src="M", md=0, att="intlike", intkeys=True),
     "raw": dict(type="raw", src="R", md=1),
 }
 
@@ -262,6 +274,7 @@ NEW_TEMPLATES = {
     "N3": dict(type="code", text=NEW_SRC["N3"], outputs=[], md=0),
     "N4": dict(type="raw", text=NEW_SRC["N4"], md=0),
     "N5": dict(type="code", text=NEW_SRC["N5"], outputs=[], md=0),
+    "Ns": dict(type="code", text="s=4\n", outputs=[], md=0),
     # similar markdown cells whose attachments differ (same name, other content / other name)
     "NmA": dict(type="markdown", text=NEW_SRC["Nm"], md=0, att=True),
     "NmB": dict(type="markdown", text=NEW_SRC["Nm"] + "More.\n", md=1, att="other"),
@@ -273,11 +286,12 @@ NEW_TEMPLATES = {
 CODE_ACTIONS = ["keep", "del", "src1", "src2", "src3", "src4", "src6", "src7", "src8", "src9", "rerun", "ec",
                 "out_edit", "out_edit2", "out_clear", "out_add", "out_add2", "out_add_front", "out_del",
                 "out_del_last", "out_ec", "out_ptr", "rerun2", "out_edit_add", "out_edit2_add2", "out_edit_md",
-                "edit_rerun", "tag_front", "tag_back", "md_scrolled_true",
+                "edit_rerun", "md_src", "collapsed_src", "md_empty_add", "md_empty_set", "tag_front", "tag_back", "md_scrolled_true",
                 "md_scrolled_auto", "md_del_collapsed", "md_shift",
                 "md_edit", "md_add", "md_del", "md_collapsed", "id", "dup", "to_md"]
 MD_ACTIONS = ["keep", "del", "src1", "src2", "src3", "src4", "src6", "md_edit", "md_add",
-              "att_add", "att_del", "att_edit", "att_rename", "id", "dup"]
+              "att_add", "att_del", "att_edit", "att_rename", "id", "dup", "att_edit_1", "md_edit_2024",
+              "md_edit_note", "md_empty_add", "md_empty_set"]
 
 
 def _edit_output(ctx, out, variant, tag):
@@ -480,6 +494,14 @@ def apply_action(ctx, cell, action, tag):
         md["tags"] = (["x"] + tags) if action == "tag_front" else (tags + ["x"])
         c["metadata"] = md
         return [c]
+    if action in ("md_empty_add", "md_empty_set"):
+        md = dict(cell["metadata"])
+        if action == "md_empty_add":
+            md["blank"] = ""
+        else:
+            md[sorted(md)[0] if md else "blank"] = ""
+        c["metadata"] = md
+        return [c]
     if action == "md_del":
         md = dict(cell["metadata"])
         if md:
@@ -524,6 +546,22 @@ def apply_action(ctx, cell, action, tag):
         if "id" in cell:
             c["id"] = cell["id"]
         return [c]
+    if action in ("att_edit_1", "md_edit_2024", "md_edit_note"):
+        if action == "att_edit_1":
+            att = {k: dict(v) for k, v in cell.get("attachments", {}).items()}
+            if "1" in att:
+                att["1"] = {"image/png": B64[1]}
+                c["attachments"] = att
+            return [c]
+        md = dict(cell["metadata"])
+        key = "2024" if action == "md_edit_2024" else "note"
+        if key in md:
+            md[key] = ctx.md(tag)
+        c["metadata"] = md
+        return [c]
+    if action in ("md_src", "collapsed_src"):
+        step = apply_action(ctx, cell, "md_edit" if action == "md_src" else "md_collapsed", tag)[0]
+        return apply_action(ctx, step, "src1", tag)
     if action.startswith("att_"):
         if t != "markdown":
             return [cell]
